@@ -269,8 +269,9 @@ def _shape_case(rng, i):
     """thread shapes named in the property's mechanism list, each swept over EVERY single
     pre-emption position of one thread (the others run inside the window):
       0 three threads on one key            1 on_miss re-entrancy (lookup -> on_miss -> self[key] = ...)
-      2 LRU reads racing evictions          3 copy() racing writers"""
-    shape = i % 4
+      2 reads of the oldest keys racing evictions (LRU and LRI)     3 copy() racing writers
+      4 a batch (update / |=) racing readers of its keys: the batch must be visible all or nothing"""
+    shape = i % 5
     mx = rng.choice([1, 2, 2, 3])
     init = [[0, 1], [1, 2], [5, 3]][:mx]
     v = lambda: 10 + rng.randrange(30)
@@ -291,7 +292,15 @@ def _shape_case(rng, i):
     elif shape == 2:
         threads = [[["get", 0]] + ([["get", 1]] if mx > 1 and rng.random() < 0.5 else []),
                    [["set", 2, v()]] + ([["set", 3, v()]] if rng.random() < 0.5 else [])]
-        om, kind = rng.choice([0, 0, 1]), "LRU"
+        om, kind = rng.choice([0, 0, 1]), rng.choice(["LRU", "LRI"])
+    elif shape == 4:
+        batch = rng.choice([["update", [[2, v()], [3, v()]], rng.choice(["list", "dict", "iter"])], ["ior", [[2, v()], [3, v()]], "dict"],
+                            ["update", [[0, v()], [2, v()]], "list"]])
+        reader = rng.choice([[["in", 2], ["in", 3]], [["getd", 3, 1], ["getd", 2, 1]], [["or"]], [["copy"]], [["len"]],
+                             [["eq", [[0, 1], [1, 2]]]], [["in", 3], ["in", 2]], [["repr"]], [["ne", [[0, 1], [1, 2]]]]])
+        threads = [[batch], reader]
+        om, kind = 0, rng.choice(["LRI", "LRU"])
+        mx, init = 3, [[0, 1], [1, 2]]
     else:
         threads = [[["copy"]],
                    [rng.choice([["set", 2, v()], ["set", 0, v()], ["del", 0], ["clear"], ["popitem"], ["pop", 0],
